@@ -88,6 +88,26 @@ theorem park_reported_block {σ : Type} (t : Trans σ ε ρ) (fp : σ → Option
     parkEvents t (fun _ _ => none) fp st s d = [] :=
   park_ok_of_flush_only t fp s st d h
 
+/-! ### the per-row runtime check is applied to every row independently -/
+
+/-- execute_project runs `ensure_runtime_expression_compatible` inside the per-row closure, for
+    every projection item, unconditionally (regenerated from the source; a hoisted, cached or
+    first-row-only check turns the flag on, an unknown shape breaks the table) -/
+theorem project_check_not_hoisted : Generated.projectHoistsCheck = false := by decide
+
+omit [DecidableEq κ] in
+/-- the model's Project is pointwise: the item for a row is `projectRow` of THAT row (check and
+    evaluation, `Sem.eval`), whatever its position in the stream and whatever came before -/
+theorem project_checks_every_row (S : Sem χ ρ ν ε κ α) (L : LimEnv ε) (env : ρ) (projs : List (String × χ))
+    (rows : List ρ) :
+    (projectT S L env projs).run () (rows.map .ok) = rows.map (fun r => projectRow S L env projs r) := by
+  induction rows with
+  | nil => rfl
+  | cons r rs ih =>
+    simp only [List.map_cons, Trans.run_cons]
+    show [projectRow S L env projs r] ++ (projectT S L env projs).run () (rs.map .ok) = _
+    rw [ih]; rfl
+
 /-! ### query level, by induction over `Plan` -/
 
 /-- for every plan, at every node and for every demand: if the items handed out are all `Ok`,
